@@ -201,6 +201,14 @@ pub fn run(thorough: bool, seed: u64, driver: &str, rep: &mut Report) {
                     let mut t = random_shape(&mut rng, size);
                     let mode = if i % 10 == 0 { LenMode::Mixed } else { LenMode::All };
                     label(&mut rng, &mut t, &LabelOpts { len_mode: mode, ..Default::default() });
+                    // a zero length written with the sign bit set is a finite, non-negative length like any other zero
+                    if i % 4 == 1 {
+                        let mut k = 0;
+                        t.for_each_mut(&mut |x, root, _| { if !root && x.len.is_some() && rng.chance(1, 6) { x.len = Some(-0.0); k += 1; } }, true, 0);
+                        if k > 0 {
+                            rep.count("trees_with_negative_zero_lengths");
+                        }
+                    }
                     trees.push(t);
                     rep.count("random_trees");
                 }
